@@ -125,6 +125,16 @@ pub fn run_case(a: &Args, tag: &'static str, idx: u64, acc: &mut Acc) {
                 }
             }
         }
+        // read_to_string: the text for valid UTF-8 (multi-byte characters straddle the 8 KiB boundaries of large
+        // contents), an error otherwise
+        match (std::str::from_utf8(&reference), guard(|| path.read_to_string())) {
+            (Ok(text), Ok(Ok(got))) if got == text => {}
+            (Err(_), Ok(Err(_))) => {}
+            (want, got) => {
+                acc.violate(Violation { property: "C04", signature: format!("read_to_string|{}|{}", if want.is_ok() { "valid-utf8" } else { "invalid-utf8" }, cfg.family()), summary: format!("read_to_string of a {}-byte file ({}) returned {}", reference.len(), if want.is_ok() { "valid UTF-8" } else { "not UTF-8" }, match got { Ok(Ok(s)) => format!("Ok({} bytes)", s.len()), Ok(Err(e)) => format!("Err({})", e), Err(p) => format!("PANIC {}", p.message) }), detail: mk(&log, J::Null), order });
+                return;
+            }
+        }
         match path.metadata() {
             Ok(m) if m.len == reference.len() as u64 => {}
             other => {
